@@ -54,9 +54,11 @@ pub fn run(ctx: &mut Ctx) {
     for k in 0..3u8 {
         let mut ops = vec![];
         for r in 0..3usize {
-            ops.extend([TOp::NewRequest(r), TOp::DeliverReq(Delivery::LatestWithStatus(k)), TOp::DeliverReq(Delivery::CraftedZeroKey), TOp::Prepare(vec![0], false), TOp::NextPayload, TOp::Submit(true), TOp::Retrieve,
-                        TOp::DeliverResp(Delivery::LatestWithStatus(k)), TOp::DeliverResp(Delivery::CraftedZeroKey)]);
+            // (no refused frame in between: a failed decryption moves the receive counter and would end the dialogue)
+            ops.extend([TOp::NewRequest(r), TOp::DeliverReq(Delivery::LatestWithStatus(k)), TOp::Prepare(vec![0], false), TOp::NextPayload, TOp::Submit(true), TOp::Retrieve,
+                        TOp::DeliverResp(Delivery::LatestWithStatus(k))]);
         }
+        ops.extend([TOp::DeliverReq(Delivery::CraftedZeroKey), TOp::DeliverResp(Delivery::CraftedZeroKey)]);
         run_trace(ctx, "scripted_status_with_data", 1, ops, Some("c07.spec_emissions"));
     }
     for f in frames.iter() {
